@@ -217,8 +217,16 @@ fn st<'a>(v: &'a Value, k: &str) -> &'a str {
     v[k].as_str().unwrap_or_else(|| panic!("case field {k} missing in {v}"))
 }
 
-fn shape(s: &str, n: usize) -> Vec<usize> {
+fn shape(s: &str, n: usize, salt: u64) -> Vec<usize> {
     match s {
+        "rand" => {
+            // a seeded random non-empty signer subset
+            let mut rng = StdRng::seed_from_u64(salt ^ (n as u64).wrapping_mul(0x9E37_79B9_7F4A_7C15));
+            let mut bits = vec![0u8; n];
+            rng.fill_bytes(&mut bits);
+            let keep = (rng.next_u64() % n as u64) as usize;
+            (0..n).filter(|&i| i == keep || bits[i] & 1 == 1).collect()
+        }
         "none" => vec![],
         "first" => vec![0],
         "last" => vec![n - 1],
@@ -326,8 +334,8 @@ impl Worker {
             }
             "cert" => {
                 let n = us(m, "n");
-                let a = shape(st(m, "a"), n);
-                let b = shape(st(m, "b"), n);
+                let a = shape(st(m, "a"), n, k.seed);
+                let b = shape(st(m, "b"), n, k.seed ^ 0xB);
                 let vals = &k.validators[..n];
                 fn pick<T: Clone>(all: &[T], idx: &[usize]) -> Vec<T> {
                     idx.iter().map(|&i| all[i].clone()).collect()
@@ -412,6 +420,12 @@ fn apply_ops(bytes: &[u8], ops: &Value) -> Result<Vec<u8>, String> {
                     return Err(format!("or out of range: {op}"));
                 }
                 b[off] |= val as u8;
+            }
+            "xor" => {
+                if off >= b.len() {
+                    return Err(format!("xor out of range: {op}"));
+                }
+                b[off] ^= val as u8;
             }
             "insert" => {
                 if off > b.len() {
